@@ -99,9 +99,13 @@ def firstHopIds (outbound_scid_alias short_channel_id : Option Nat) : Option (Na
 /-- THE CANDIDATE a route hop `h` leaving `src` stands for.
     * a blinded tail: the blinded candidate with that index from `src` (the introduction node, never the
       payer itself);
-    * a hop from the payer when `first_hops` was supplied: ONLY a first-hop channel to that peer, named by
+    * a hop from the payer when `first_hops` was supplied: a first-hop channel to that peer, named by
       its alias or by its real scid (get_route skips the payer's graph channels: `first_hops.is_none() ||
-      *source != our_node_id`, and ignores hints naming a direct channel of ours);
+      *source != our_node_id`, and ignores hints naming a direct channel of ours), or else the private hop
+      of a ROUTE HINT whose source is the payer (the property's "through the supplied first hops, route
+      hints or blinded tails"; get_route takes every hint hop as a last-hop candidate whatever its source —
+      router tests `allow_us_being_first_hint`, `first_hop_preferred_over_hint`) — NEVER a channel of the
+      graph;
     * otherwise: the usable public channel direction with that scid if there is one (a hint naming a
       channel of the graph becomes a PublicHop), else the private hop of a route hint. -/
 def resolve (g : Graph) (p : Params) (src : Nat) (h : RHop) : Option Chan :=
@@ -111,7 +115,9 @@ def resolve (g : Graph) (p : Params) (src : Nat) (h : RHop) : Option Chan :=
     if src == p.payer then none else
     g.find? (fun c => !candidate_has_scid c.kind && c.scid == h.scid && c.src == src && c.dst == h.node)
   else if !public_candidate_considered (!p.hasFirst) (src == p.payer) then
-    g.find? (fun c => c.kind == .firstHop && c.named h.scid && c.src == src && c.dst == h.node)
+    match g.find? (fun c => c.kind == .firstHop && c.named h.scid && c.src == src && c.dst == h.node) with
+    | some c => some c
+    | none => g.find? (fun c => c.kind == .privateHop && c.scid == h.scid && c.src == src && c.dst == h.node)
   else
     match g.find? (fun c => c.kind == .publicHop && c.scid == h.scid && c.src == src && c.dst == h.node && twoWay g c) with
     | some c => some c
@@ -324,11 +330,15 @@ def recurrenceVerdict (g : Graph) (p : Params) (r : Route) : String :=
 
 /-! ### reference single-path search (for router failures) -/
 
-/-- candidate usable for the bare requested amount (from the payer: the first hops only, if supplied) -/
+/-- candidate usable for the bare requested amount (from the payer: the first hops and hint hops only, if first hops were supplied) -/
 def usable (g : Graph) (p : Params) (c : Chan) : Bool :=
   usableEdge g c && c.enabled && decide (c.minMsat ≤ p.amount) && decide (p.amount ≤ c.limit) && !(excludes p c) &&
   (if c.src == p.payer then
-     (if p.hasFirst then c.kind == .firstHop else (c.kind == .publicHop || c.kind == .privateHop))
+     (if p.hasFirst then
+        (c.kind == .firstHop ||
+         -- a hint hop starting at the payer, unless it names one of our channels to that peer (get_route ignores that hint)
+         (c.kind == .privateHop && !(g.any (fun f => f.kind == .firstHop && f.named c.scid && f.src == c.src && f.dst == c.dst))))
+      else (c.kind == .publicHop || c.kind == .privateHop))
    else c.kind != .firstHop)
 
 /-- breadth-first reachability of the payee over usable directions (fees ignored) -/
